@@ -92,8 +92,11 @@ def gen_case(chk, i):
     marks = {}
     labels = {}
     if rng.random() < 0.5:
-        marks = {7: "single", 42: "stack"}
-        labels = {7: {1: "one", 2: "two"}, 42: {3: "three"}}
+        # mark types anywhere in the allowed range 0..99, its two ends included
+        ta = rng.choice([0, 7, 99, rng.randint(0, 99)])
+        tb = rng.choice([t for t in (42, 99, 0, 1, 98) if t != ta])
+        marks = {ta: "single", tb: "stack"}
+        labels = {ta: {1: "one", 2: "two"}, tb: {3: "three"}}
     g = histgen.Gen(rng, desc, enabled, marks)
     tm = [m for m in "V6" if m in enabled]
     if tm and i % 2 == 1:
